@@ -20,6 +20,7 @@ import numpy as np
 
 from vp import gen, probe, refmodels as rm
 from vp import defaults
+from vp import reuse
 from vp.monitors import C04
 
 RULE = ('seeded generator: a catalogue of ~45 public operations (plane constructors, multiply, propagate_dft/fft, fit_tilt, '
@@ -693,6 +694,7 @@ def install(ctx, lentil):
 
 def workload(ctx, lentil):
     defaults.run(ctx, lentil, 'C10', 'frozen-inputs')
+    reuse.run(ctx, lentil, 'C10', 'frozen-inputs')
     rng = ctx.rng
     rounds = ctx.count(6, 40)
     history = []           # (name, args (pristine copy), call, digest)
